@@ -123,6 +123,11 @@ func main() {
 							if repl == orig {
 								continue
 							}
+							// "$N" placeholders are named parameters numbered by first appearance: renaming one
+							// to a name that does not occur elsewhere in the statement changes nothing
+							if strings.HasPrefix(orig, "$") && !strings.Contains(x.Value, repl) {
+								continue
+							}
 							p := fset.Position(x.Pos())
 							line := p.Line + strings.Count(x.Value[:loc[0]], "\n")
 							out = append(out, mutant{ID: fmt.Sprintf("sql_%d_%d", line, len(out)), Kind: "sql", Func: name, Line: line, Off: base + loc[0], Len: loc[1] - loc[0], Orig: orig, Repl: repl})
